@@ -122,6 +122,8 @@ SHAPES = {
     # elements that are == and hash-equal in Python but of different types (1, 1.0, True / 0, 0.0, False)
     "hasheq": lambda c, x: c.M([("a", x), ("s", [1, 1.0, 0.0, 0, c.Q(1, "m"), c.Q(1.0, "m"), 1.0, 1])]),
     "hasheqb": lambda c, x: c.M([("s", [True, 1, 0, False, 1.0, True]), ("a", x), ("t", [False, 0])]),
+    # quantities whose units ODL's rule for units expressions rejects (negative exponent, leading digit, '%', empty)
+    "quantbad": lambda c, x: c.M([("a", c.Q(x, "m s**-2")), ("b", [c.Q(2, "1/s"), c.Q(x, "%")]), ("c", c.Q(3.5, ""))]),
     "quant": lambda c, x: c.M([("a", c.Q(x, "m")), ("b", [c.Q(x, "km/s**2")])]),
 }
 
